@@ -178,8 +178,7 @@ def concretize(it, t, what='value', limit=64):
     ts = z3.simplify(t)
     if z3.is_bv_value(ts): return ts.as_long()
     for _ in range(limit):
-        sol = z3.Solver(); sol.add(*it.fork['pc'])
-        if sol.check() != z3.sat: raise Exception('infeasible path while concretising %s' % what)
-        val = sol.model().eval(ts, model_completion=True).as_long()
+        val = irsym.min_feasible(it.fork['pc'], ts)
+        if val is None: raise Exception('infeasible path while concretising %s' % what)
         if it.decide(z3.If(ts == val, z3.BitVecVal(1, 1), z3.BitVecVal(0, 1))): return val
     raise Exception('too many values for %s' % what)
